@@ -4,7 +4,7 @@ CONSTANTS
   MaxCrash = 2
   Guard = TRUE
   Tiny = FALSE
-  Queued = FALSE
+  Queued = TRUE
 INVARIANTS ReadableWhileUp Recoverable NextAbove GuardSound
 CHECK_DEADLOCK FALSE
 CONSTRAINT Bound
